@@ -4,7 +4,7 @@ import lzma as pylzma
 from . import core
 from .core import crc32, lzma_header, out_repr
 from .run import Run
-from .props import (reader_kind, v, outfield, is_prefix_repr, repr_len, exp_ok_out, exp_err, no_crash, sizes, lzma_file,
+from .props import (reader_kind, costly_marker_program, v, outfield, is_prefix_repr, repr_len, exp_ok_out, exp_err, no_crash, sizes, lzma_file,
                     liblzma_raw2, liblzma_xz, liblzma_alone, lzma2_material, xz_files, parse_lzma2, chunkings,
                     split_by, stream_ops, stream_verdict, spec_check)
 
@@ -119,6 +119,24 @@ def c06(run: Run):
                 continue
             run.add("xz in=%s" % core.build_xz(f["check"], f["blocks"], index_records=vr).hex(), oracle=must_reject3,
                     tag="c06:index-count", what=what)
+    # the same size checks on blocks with a chain of filters (lzma-rs accepts LZMA2 -> LZMA2)
+    for i in range(sizes(run.tier, 4, 20)):
+        m = rng.pick(lz2)
+        inner = m["payload"]
+        outer = b"".join(bytes([1 if j == 0 else 2]) + (len(inner[j:j + 65536]) - 1).to_bytes(2, "big") + inner[j:j + 65536] for j in range(0, len(inner), 65536)) + b"\x00"
+        for which, true in (("packed", len(outer)), ("unpacked", len(m["out"]))):
+            for val in (true + 1, max(0, true - 1), 0, true + 1000):
+                if val == true:
+                    continue
+                blk = core.XzBlock(outer, m["out"], decl_packed=True, decl_unpacked=True, nfilters=2)
+                if which == "packed":
+                    blk.packed_override = val
+                else:
+                    blk.unpacked_override = val
+                run.add("xz in=%s" % core.build_xz(rng.pick([0, 1, 4]), [blk]).hex(), oracle=must_reject3, tag="c06:declared-size-filter-chain",
+                        what="two-filter block declares %s size %d, the real one is %d" % (which, val, true))
+        run.add("xz in=%s" % core.build_xz(1, [core.XzBlock(outer, m["out"], decl_packed=True, decl_unpacked=True, nfilters=2)]).hex(),
+                oracle=exp_ok_out(m["out"]), tag="c06:valid-filter-chain")
     # index records that are individually wrong but keep the totals (swap, +k/-k)
     multi = [f for f in xz_files(run, 80, lz2) if len(f["blocks"]) >= 2 and len(f["data"]) < 4000][:sizes(run.tier, 4, 30)]
     for f in multi:
@@ -319,6 +337,21 @@ def c07(run: Run):
                 hdr = lzma_header(rng.pick([3, 0, 8]), rng.pick([0, 4]), rng.pick([2, 0, 4]), 4096, None if us == "hdr" else "skip")
                 run.add("lzma us=%s in=%s" % (us, (hdr + pay).hex()), oracle=bound(len(pay) + 13), tag="c07:coder-ties", release=True)
             run.add("lzma2 in=%s" % (bytes([0xE0, 0, 9, 0, len(pay) - 1, 0x5D]) + pay + b"\x00").hex(), oracle=bound(30), tag="c07:coder-ties", release=True)
+            sd = lzma_header(3, 0, 2, 4096, None) + pay
+            run.add("stream us=hdr ops=%s" % stream_ops(sd, chunkings(rng, len(sd), 3)[-1], op="w"),
+                    oracle=lambda res, meta, peak: "panic/hang in stream" if (stream_verdict(res) in ("panic", "hang", "abort", "missing")) else None,
+                    tag="c07:coder-ties", release=True)
+    # a sink that is full (returns Ok(0)) at the hand-over of a window lap / at finish: an error, not a spin
+    for b in core.script([dict(kind="lzma", lc=3, lp=0, pb=2, dict=4096, prog="X300.%d.200,M7.273*40,L9%s" % (rng.below(99), e_)) for e_ in ("", ",E")]):
+        data = lzma_file(b)
+        for k in (0, 1, 2, 3):
+            script = ",".join(["a"] * k + ["u0"] * 6)
+            run.add("lzma us=hdr sink=%s in=%s" % (script, data.hex()), oracle=bound(len(data)), tag="c07:full-sink", release=True)
+            run.add("stream us=hdr sink=%s ops=%s" % (script, stream_ops(data, chunkings(rng, len(data), 3)[-1])),
+                    oracle=lambda res, meta, peak: "panic/hang in stream" if (stream_verdict(res) in ("panic", "hang", "abort", "missing")) else None,
+                    tag="c07:full-sink", release=True)
+    for m in [x for x in lz2 if x.get("gen")][:6]:
+        run.add("lzma2 sink=%s in=%s" % (",".join(["a"] * rng.below(3) + ["u0"] * 4), m["payload"].hex()), oracle=bound(len(m["payload"])), tag="c07:full-sink", release=True)
     # very many complete units back to back: neither stack depth nor memory may grow with their number
     unit = core.build_xz(1, [])
     for cnt in (2, 60000):
@@ -414,6 +447,15 @@ def c08(run: Run):
                 return "panic" if "panic" in res else None
             run.add("rawlzma lc=%d lp=%d pb=%d dict=%d us=%d ml=none ops=r;d:%s" % (m["lc"], m["lp"], m["pb"], m["dict"], L - 1, pay.hex()),
                     oracle=kept, tag="c08:raw-size-kept-by-reset")
+        # raw decoder: a size set by reset(Some(size)) stays in effect across reset(None), whatever the constructor was given
+        if L > 1 and rng.chance(1, 3):
+            def kept2(res, meta, peak, n=L - 1):
+                last = res.split(" ")[-1]
+                if last.startswith("ok:") and repr_len(last.split(":", 2)[2]) != n:
+                    return "raw decoder: success with %d bytes although reset(Some(%d)) then reset(None) leave size %d in effect" % (repr_len(last.split(":", 2)[2]), n, n)
+                return "panic" if "panic" in res else None
+            run.add("rawlzma lc=%d lp=%d pb=%d dict=%d us=%s ml=none ops=rs:%d;r;d:%s" % (m["lc"], m["lp"], m["pb"], m["dict"], rng.pick(["none", str(L), "0"]), L - 1, pay.hex()),
+                    oracle=kept2, tag="c08:raw-size-kept-by-reset")
         # streaming finish obeys the same rule
         run.add("stream us=hdr ops=%s" % stream_ops(lzma_header(m["lc"], m["lp"], m["pb"], m["dict"], L + 1) + pay, [len(pay) + 13]),
                 oracle=lambda res, meta, peak, L=L: "stream finish succeeded with %d bytes, size %d in effect" % (repr_len(outfield(res)), L + 1)
@@ -437,6 +479,28 @@ def c08(run: Run):
                 run.add("lzma us=%s in=%s" % (us, (data + tail).hex()), oracle=exp_err(), tag="c08:bytes-after-marker")
             else:
                 run.add("lzma us=%s in=%s" % (us, data.hex()), oracle=exp_err(), tag="c08:nosize-nomarker")
+    # no size in effect: decoding runs to the end marker whatever length the marker carries
+    reqs = [dict(kind="lzma", lc=3, lp=0, pb=2, dict=4096, prog="X%d.%d.200,M3.4,M4294967296.%d" % (rng.pick([4, 40]), rng.below(999), ln)) for ln in (2, 3, 4, 9, 10, 18, 273)]
+    for b in core.script(reqs):
+        for us, data in (("hdr", lzma_header(3, 0, 2, 4096, None) + b["payload"]), ("hup:none", lzma_header(3, 0, 2, 4096, 7) + b["payload"]),
+                         ("up:none", lzma_header(3, 0, 2, 4096, "skip") + b["payload"])):
+            run.add("lzma us=%s in=%s" % (us, data.hex()), oracle=exp_ok_out(b["out"]), tag="c08:nosize-long-marker")
+            run.add("lzma us=%s in=%s" % (us, (data + b"\x00").hex()), oracle=exp_err(), tag="c08:bytes-after-long-marker")
+    # success implies exactly that many bytes at the sink, also when a window larger than 64 KiB is handed over lap by lap
+    for b in core.script([dict(kind="lzma", lc=3, lp=0, pb=2, dict=d_, prog="X300.%d.200,M%d.273*%d,X9.%d.200%s" % (
+            rng.below(99), rng.pick([7, 300]), (d_ * 9 // 4) // 273, rng.below(99), e_)) for d_, e_ in ((1 << 17, ""), (5 << 16, ",E"))]):
+        L2 = len(b["out"])
+        for us, data in (("hdr", lzma_file(b)), ("hup:%s" % ("none" if b["eos"] else L2), lzma_file(b)),
+                         ("up:%s" % ("none" if b["eos"] else L2), lzma_header(3, 0, 2, b["dict"], "skip") + b["payload"])):
+            run.add("lzma us=%s in=%s" % (us, data.hex()), oracle=exp_ok_out(b["out"]), tag="c08:large-window")
+    # the raw decoder: a size of 2^64 - 1 given to reset is a size (not "unknown"); allow_incomplete changes nothing for the one-shot decoder
+    for m in [x for x in mats if x["eos"]][:sizes(run.tier, 10, 60)]:
+        run.add("rawlzma lc=%d lp=%d pb=%d dict=%d us=none ml=none ops=rs:%d;d:%s" % (m["lc"], m["lp"], m["pb"], m["dict"], U64MAX, m["payload"].hex()),
+                oracle=lambda res, meta, peak: None if res.split(" ")[-1].startswith("err:") else
+                "raw decoder reset to size 2^64 - 1 accepted a marker-terminated stream: %s" % res[:80], tag="c08:raw-reset-u64max")
+        data = lzma_file(m)
+        run.add("lzma us=hdr ai=1 in=%s" % (data + rng.bytes(rng.pick([1, 7]))).hex(), oracle=exp_err(), tag="c08:bytes-after-marker:allow-incomplete")
+        run.add("lzma us=hdr ai=1 in=%s" % lzma_file(m, size=len(m["out"]) + 1).hex(), oracle=exp_err(), tag="c08:marker-before-size:allow-incomplete")
     run.add("lzma us=hdr in=%s" % (b"\x5d\x00\x00\x80\x00" + b"\xff" * 8 + b"\x00" * 5).hex(), oracle=exp_err(),
             tag="c08:nosize-nomarker", witness="K1")
 
@@ -493,6 +557,12 @@ def c09(run: Run):
         if d >= 4096:
             data = lzma_header(m["lc"], m["lp"], m["pb"], d, None) + m["payload"]
             run.add("lzma us=hdr in=%s" % data.hex(), oracle=exp_err(prefix_of=m["out"]), tag="c09:stream-circ")
+            # … whatever memory limit is given (a limit at or above the dictionary size changes nothing)
+            ml = rng.pick([d, d + 1, 65536, 1 << 20, 2**40])
+            run.add("lzma us=hdr ml=%d in=%s" % (ml, data.hex()), oracle=exp_err(prefix_of=m["out"]), tag="c09:stream-circ:memlimit")
+            run.add("stream us=hdr ml=%d ops=%s" % (ml, stream_ops(data + bytes(25), [len(data) + 25])),
+                    oracle=lambda res, meta, peak, out=m["out"]: None if stream_verdict(res) == "err" and is_prefix_repr(outfield(res), out)
+                    else "out-of-window copy accepted by the streaming decoder under a memory limit, or bytes fabricated", tag="c09:stream-api:memlimit")
             run.add("stream us=hdr ops=%s" % stream_ops(data, [len(data)]),
                     oracle=lambda res, meta, peak, out=m["out"]: None if stream_verdict(res) == "err" and is_prefix_repr(outfield(res), out)
                     else "out-of-window copy accepted by the streaming decoder or bytes fabricated", tag="c09:stream-api")
@@ -513,7 +583,7 @@ def c09(run: Run):
                 if not is_prefix_repr(toks[1].split(":", 2)[2], out):
                     return "bytes fabricated: sink is not a prefix of the well-formed prefix's output"
                 return None
-            run.add("rawlzma lc=%d lp=%d pb=%d dict=%d us=none ml=none ops=d:%s" % (m["lc"], m["lp"], m["pb"], d, m["payload"].hex()),
+            run.add("rawlzma lc=%d lp=%d pb=%d dict=%d us=none ml=%s ops=d:%s" % (m["lc"], m["lp"], m["pb"], d, rng.pick(["none", str(d), "4096", str(2**40)]), m["payload"].hex()),
                     oracle=raw_err, tag="c09:raw-circ")
             # the size given to the constructor is not the size in effect after reset(Some(..)): the window
             # rules do not depend on either
@@ -543,6 +613,21 @@ def c09(run: Run):
             run.add("rawlzma lc=%d lp=%d pb=%d dict=%d us=none ml=none ops=d:%s;r;d:%s" % (
                 m["lc"], m["lp"], m["pb"], d, g["payload"].hex(), m["payload"].hex()),
                 oracle=raw_hist, tag="c09:raw-reuse")
+    # the repeat distance an end marker leaves behind (2^32 - 1) is outside every window: a second payload decoded by
+    # the same raw decoder without reset and opening with a short repeat / repeated match / literal is refused
+    firsts = core.script([dict(kind="lzma", lc=lc_, lp=0, pb=pb_, dict=4096, prog=pr) for lc_, pb_ in ((3, 2), (0, 0)) for pr in ("X9.1.200,M2.5,E", "S", "R0.2", "R0.273", "L65,L66")])
+    for i in range(0, len(firsts), 5):
+        eos_stream = firsts[i]
+        for nxt in firsts[i + 1:i + 5]:
+            def second_refused(res, meta, peak):
+                toks = res.split(" ")
+                if "panic" in res or v(res) in ("hang", "abort", "missing"):
+                    return "panic/hang: %s" % res[:80]
+                if len(toks) < 3 or not toks[2].startswith("err:"):
+                    return "a payload that opens by using the repeat distance left by an end marker (2^32 - 1) was not refused: %s" % res[:100]
+                return None if repr_len(toks[2].split(":", 2)[2]) == 0 else "bytes fabricated for a reference outside the window"
+            run.add("rawlzma lc=%d lp=0 pb=%d dict=4096 us=none ml=none ops=d:%s;d:%s" % (eos_stream["lc"], eos_stream["pb"], eos_stream["payload"].hex(), nxt["payload"].hex()),
+                    oracle=second_refused, tag="c09:raw-after-marker", release=True)
     # exhaustive small scope (thorough): every op sequence of length <= 4 over a 9-op alphabet, d in 1..3, two limits
     if run.tier == "thorough":
         alpha = [("lit", 7), ("lit", 200), ("lz", 1, 1), ("lz", 2, 1), ("lz", 3, 2), ("lz", 2, 3), ("lz", 5, 1), ("lastn", 1), ("lastn", 2)]
@@ -653,6 +738,17 @@ def c10(run: Run):
                         return "streaming with limit %d below the needed window did not fail" % ml
                     return None
                 run.add("stream us=hdr ml=%d ops=%s" % (ml, stream_ops(data, parts)), oracle=soracle, tag="c10:stream")
+                if not expect_ok and rng.chance(1, 2):
+                    # size supplied by the caller (5-byte header), header and preamble in pieces, allow_incomplete, and
+                    # input cut short: whenever the produced window would exceed the limit the stream fails, at the write
+                    # or at finish
+                    up = lzma_header(m["lc"], m["lp"], m["pb"], d, "skip") + m["payload"]
+                    for cut in (len(up), min(len(up), 17), min(len(up), 12)):
+                        c_ = rng.pick([1, 2, 3, 4])
+                        pre = up[:cut]
+                        pieces = [pre[i:i + c_] for i in range(0, min(len(pre), 12), c_)] + ([pre[((min(len(pre), 12) + c_ - 1) // c_) * c_:]] if len(pre) > 12 else [])
+                        run.add("stream us=up:%s ml=%d ai=1 full=1 ops=%s" % ("none" if m["eos"] else len(out), ml, ";".join(["wa:" + x.hex() for x in pieces if x] + ["fin"])),
+                                oracle=None, tag="c10:stream-provided-incomplete")
             else:
                 us = "none" if m["eos"] else str(len(out))
 
@@ -667,6 +763,15 @@ def c10(run: Run):
                     return None
                 run.add("rawlzma lc=%d lp=%d pb=%d dict=%d us=%s ml=%d ops=d:%s" % (m["lc"], m["lp"], m["pb"], d, us, ml, m["payload"].hex()),
                         oracle=roracle, tag="c10:raw")
+                if rng.chance(1, 3):
+                    # the limit applies to every use of the object, not only the first
+                    def again(res, meta, peak, f=roracle):
+                        toks = res.split(" ")
+                        if len(toks) < 4:
+                            return "no result"
+                        return f(" ".join([toks[0], toks[1]]), meta, peak) or f(" ".join([toks[0], toks[3]]), meta, peak)
+                    run.add("rawlzma lc=%d lp=%d pb=%d dict=%d us=%s ml=%d ops=d:%s;r;d:%s" % (m["lc"], m["lp"], m["pb"], d, us, ml, m["payload"].hex(), m["payload"].hex()),
+                            oracle=again, tag="c10:raw-second-use")
                 if rng.chance(1, 3):
                     # constructed for a tiny expected size, which reset replaces by the real one
                     def roracle3(res, meta, peak, f=roracle):
@@ -749,6 +854,7 @@ def c11(run: Run):
             data = lzma_file(m)
             if trail:
                 run.add("lzma us=hdr rk=%s in=%s" % (rk, (data + trail).hex()), oracle=exp_err(), tag="c11:lzma-marker-trailing")
+                run.add("lzma us=hdr ai=1 rk=%s in=%s" % (rk, (data + trail).hex()), oracle=exp_err(), tag="c11:lzma-marker-trailing:allow-incomplete")
             else:
                 run.add("lzma us=hdr rk=%s in=%s" % (rk, data.hex()), oracle=used_is(len(data), m["out"]), tag="c11:lzma-marker")
             # the caller says "ignore the header's size, expect a marker" while the header does carry the true
@@ -889,7 +995,7 @@ def c12(run: Run):
             return None
         for rk, kmax in (("frag:1:1", min(len(data) + 4, 160)), ("frag:5:4", min(len(data) // 2 + 4, 60)), ("flat", 12)):
             for k in range(1, kmax + 1):
-                run.add("%s %s rk=%s rfail=%d in=%s" % (op, args, rk, k, data.hex()), oracle=oracle, cmp=False,
+                run.add("%s %s rk=%s rfail=%d rfk=%s in=%s" % (op, args, rk, k, ["other", "wouldblock", "timedout", "invaliddata", "brokenpipe"][k % 5], data.hex()), oracle=oracle, cmp=False,
                         tag="c12:%s:oneshot-srcfault" % op, k=k, script="")
     for m in hdr[:sizes(run.tier, 2, 8)] + core.script([dict(kind="lzma", lc=3, lp=0, pb=2, dict=4096, prog=pr) for pr in ("L97", "L97,L98", "L0,L1,L2,L3", "L97,E")]):
         for us, data in (("hdr", lzma_file(m)), ("hup:%s" % ("none" if m["eos"] else len(m["out"])), lzma_file(m))):
@@ -926,6 +1032,21 @@ def c12(run: Run):
                     return None if out.hex().startswith(outfield(res)) else "bytes the sink accepted are not a prefix of the correct output"
                 run.add("stream us=hdr full=1 ai=%d sink=%s ops=%s" % (rng.below(2), script, ";".join(["wa:" + c.hex() for c in parts] + ["fin"])),
                         oracle=soracle, tag="c12:stream:sinkfault", script=script)
+    # a raw LZMA2 decoder whose source failed inside a chunk, then reset (or not), then a healthy source: the earlier
+    # failure leaves nothing behind
+    for m in [x for x in lzma2_material(run, 40, 80, 0, 0) if 3 < len(x["payload"]) < 3000][:sizes(run.tier, 12, 60)]:
+        pay = m["payload"]
+        for c in parse_lzma2(pay)[:3]:
+            if c["kind"] == "end":
+                continue
+            cut = c["off"] + c["hdrlen"] + max(1, (c["total"] - c["hdrlen"]) // 2)
+            for mid in (["r"], []):
+                def healthy_again(res, meta, peak, out=m["out"], used=len(pay)):
+                    if "panic" in res or v(res) in ("hang", "abort", "missing"):
+                        return "panic/hang"
+                    want = "ok:%d:%s" % (used, out_repr(out))
+                    return None if res.split(" ")[-1] == want else "after a source fault inside a chunk the reused raw decoder gave %s, the format defines %s" % (res.split(" ")[-1][:60], want[:60])
+                run.add("rawlzma2 ops=%s" % ";".join(["df:" + pay[:cut].hex()] + mid + ["d:" + pay.hex()]), oracle=healthy_again, tag="c12:rawlzma2:reuse-after-source-fault")
     # nothing to deliver is still a success that flushes: the empty LZMA2 stream, empty .lzma streams
     decoder_cases("lzma2", "", b"\x00", b"", True, 2)
     for e in core.script([dict(kind="lzma", lc=3, lp=0, pb=2, dict=4096, prog="E"), dict(kind="lzma", lc=0, lp=2, pb=1, dict=4096, prog="")]):
@@ -1000,7 +1121,7 @@ def c12_post(run):
             refid = second.add("enc kind=%s opt=%s full=1 frags=%s in=%s" % (kind, opt or "hnone", frags, data.hex()),
                                oracle=lambda res, meta, peak: None if v(res) == "ok" else "encoder failed", tag="c12:enc:ref-frags")
             for k in range(1, (len(data) + 3 if frags else 4)):
-                second.add("enc kind=%s opt=%s full=1 frags=%s rfail=%d in=%s" % (kind, opt or "hnone", frags, k, data.hex()), cmp=False,
+                second.add("enc kind=%s opt=%s full=1 frags=%s rfail=%d rfk=%s in=%s" % (kind, opt or "hnone", frags, k, ["wouldblock", "other", "timedout", "invaliddata", "brokenpipe"][k % 5], data.hex()), cmp=False,
                            oracle=lambda res, meta, peak, refid=refid: ("verdict " + v(res)) if v(res) not in ("ok", "err") else
                            "a read call failed (once) but the encoder reported success" if (v(res) == "ok" and core.fields(res).get("rf") == "1") else
                            None if outfield(second.impl[refid]).startswith(outfield(res)) else "encoder: bytes accepted before the source failure are not a prefix of the fault-free output",
@@ -1126,10 +1247,10 @@ def c14(run: Run):
         probes = []
         cur_us = us0
         for j in range(rng.pick([2, 4, 6, 10])):
-            ops.append("d:" + rng.pick(pool).hex())
+            ops.append(rng.pick(["d:", "d:", "df:"]) + rng.pick(pool).hex())     # df: the source fails where the data ends
             k = rng.below(3)
             if k == 1:
-                cur_us = rng.pick(["none", "3", str(len(m0["out"]))])
+                cur_us = rng.pick(["none", "3", str(len(m0["out"])), str(U64MAX)])
                 ops.append("rs:" + cur_us)
             else:
                 ops.append("r")
@@ -1196,9 +1317,22 @@ def c14(run: Run):
                 ch = parse_lzma2(pay)
                 if ch and ch[0]["kind"] == "lzma" and ch[0]["ctrl"] >= 0xE0:
                     pool.append(bytes([0x80 | (pay[0] & 0x1F)]) + pay[1:5] + pay[6:])
+        # streams that do not open with a dictionary reset (accepted leniently): they start from whatever position
+        # bookkeeping the object has; and streams cut inside an uncompressed chunk / after some completed chunks
+        for m in [rng.pick(lz2) for _ in range(3)]:
+            pay = m["payload"]
+            ch = parse_lzma2(pay)
+            if ch and ch[0]["kind"] == "lzma" and ch[0]["ctrl"] >= 0xE0:
+                pool.append(bytes([0xC0 | (pay[0] & 0x1F)]) + pay[1:])
+            if ch and ch[0]["kind"] == "raw":
+                pool.append(b"\x02" + pay[1:])
+            for c in ch[1:3]:
+                pool.append(pay[:c["off"]])                                   # ends right after a completed chunk
+                if c["kind"] == "raw" and c["unpacked"] > 1:
+                    pool.append(pay[:c["off"] + 3 + c["unpacked"] // 2])      # ends inside an uncompressed chunk
         ops, probes = [], []
         for j in range(rng.pick([2, 4, 8])):
-            ops.append("d:" + rng.pick(pool).hex())
+            ops.append(rng.pick(["d:", "d:", "df:"]) + rng.pick(pool).hex())
             ops.append("r")
             y = rng.pick(pool)
             ops.append("d:" + y.hex())
@@ -1377,6 +1511,43 @@ def c18(run: Run):
                 bl = [core.XzBlock(b.payload, b.out, b.decl_packed, b.decl_unpacked, b.extra_pad_words, dict(b.widths), b.filter_id, b.flags_extra, b.props) for b in blocks]
                 bl[0].filter_id = fid
                 run.add("xz in=%s" % core.build_xz(f["check"], bl).hex(), oracle=refused, tag="c18:filter-id-sweep", feature="filter 0x%x" % fid)
+        # a chain that continues behind LZMA2 (an unknown filter with id 0 and no properties looks like padding),
+        # and an LZMA2 filter with a property field of another size
+        if blocks and rng.chance(1, 3):
+            b0 = blocks[0]
+            for chain in ([(0x21, b0.props), (0x00, b"")], [(0x21, b0.props), (0x00, b""), (0x00, b"")], [(0x21, b0.props), (0x03, b"\x00")],
+                          [(0x21, b0.props + b"\x00")], [(0x21, b"")], [(0x21, b0.props + b0.props)]):
+                body = bytearray([len(chain) - 1])
+                for fid, pr in chain:
+                    body += core.mb(fid) + core.mb(len(pr)) + pr
+                total = 1 + len(body) + 4
+                total += core.pad4(total)
+                hdr = bytes([total // 4 - 1]) + bytes(body) + b"\x00" * (total - 5 - len(body))
+                raw = bytearray(b"\xfd7zXZ\x00" + bytes([0, f["check"]]) + crc32(bytes([0, f["check"]])).to_bytes(4, "little"))
+                start = len(raw)
+                raw += hdr + crc32(hdr).to_bytes(4, "little") + b0.payload
+                unp = len(raw) - start
+                raw += b"\x00" * core.pad4(unp)
+                if f["check"] == 1:
+                    raw += crc32(b0.out).to_bytes(4, "little"); unp += 4
+                elif f["check"] == 4:
+                    raw += core.crc64(b0.out).to_bytes(8, "little"); unp += 8
+                idx = b"\x00" + core.mb(1) + core.mb(unp) + core.mb(len(b0.out))
+                idx += b"\x00" * core.pad4(len(idx))
+                raw += idx + crc32(idx).to_bytes(4, "little")
+                ftr = ((len(idx) + 4) // 4 - 1).to_bytes(4, "little") + bytes([0, f["check"]])
+                raw += crc32(ftr).to_bytes(4, "little") + ftr + b"YZ"
+                run.add("xz in=%s" % bytes(raw).hex(), oracle=refused, tag="c18:filter-chain-tail", feature="filter chain %s" % [(hex(a), len(b)) for a, b in chain])
+        # reserved stream-flag bits set in BOTH flag bytes at once (first byte = upper nibble of the second, and others)
+        if rng.chance(1, 3):
+            for n_ in range(1, 16):
+                for b0_, b1_ in ((n_ << 4, (n_ << 4) | f["check"]), (n_, (n_ << 4) | f["check"]), (n_ << 4, (rng.below(15) + 1 << 4) | f["check"])):
+                    d = bytearray(f["data"])
+                    for name in ("flags", "ftr_flags"):
+                        o = f["rec"][name][0]
+                        d[o], d[o + 1] = b0_, b1_
+                    d = core.refresh_crcs(bytes(d), f["rec"], len(blocks))
+                    run.add("xz in=%s" % d.hex(), oracle=refused, tag="c18:stream-flags-pairs", feature="stream flag bytes %02x %02x" % (b0_, b1_))
         # reserved block flag bits
         for bit in (0x04, 0x08, 0x10, 0x20):
             if not blocks:
